@@ -982,7 +982,7 @@ func main() {
 	kmon := res.Monitor("collection-read-semantics",
 		"for every case: List(options) = the stored items the LAST include callback accepts WHEN GIVEN THE STORED MESSAGE, in id order, each projected onto the mask of the last read-mask option; the seed values of Pull = the same items as ADD changes with their change times, the seed flag, the last-seed flag on the final one only (none under UpdatesOnly); every later change of the masked Pull = the projection (old and new value; same id, kind, time, flags) of the change the same subscription without its read-mask options delivers (with WithNoDuplicates: of one of them, in order); PullID: exactly one seed value first iff the id is stored and accepted (and not UpdatesOnly) = projection of the stored item, its change time, flagged seed and last seed, and every value = projection of what the unmasked PullID delivers; Value.Pull: the projection of what the same subscription without its read-mask options delivers (with WithNoDuplicates: each value the projection of a value the resource held, in order); no message the collection stored and no delivered change object is altered; no panic, no stall")
 	stie := res.Tie("publication-schedules", "K4",
-		"the same collection cases as whole SCHEDULES: the Lean model (ScVerif/C06/Sched.lean: step / run / session / sessionID / listAfter) is told only what the harness did — items added, then 0-3 writes HELD between storing their value and bus.Send (yield point coll.update.beforeSend; a Delete among them completes), then the reads / subscriptions open, then the held writers are released in storage order or another one (publications overtaking each other), then 0-5 complete writes — and computes the store the subscriptions find, every change published afterwards (kind, old and new value, the ticking clock's change times) and from them List, everything the Pull with the option list, the PullID and a plain Pull are delivered; compared with the real collection run under exactly that schedule; non-trivial = at least one write was pending when the subscriptions opened; distinct by the whole case")
+		"the same collection cases as whole SCHEDULES: the Lean model (ScVerif/C06/Sched.lean: step / run / session / sessionID / listAfter) is told only what the harness did — items added, then 0-3 writes HELD between storing their value and bus.Send (yield point coll.update.beforeSend; a Delete among them completes), then the reads / subscriptions open, then the held writers are released in storage order or another one (publications overtaking each other), then 0-5 complete writes — and computes the store the subscriptions find, every change published afterwards (kind, old and new value, the ticking clock's change times) and from them List, everything the Pull with the option list, the PullID and a plain Pull are delivered, and Get(id) with the options before the subscriptions open and after all writes, List after all writes and Value.Get after all Sets (ReadAfter.lean: getAfter / vgetAfter); a third of the cases with clocks that stand still or one WithWriteTime for every Set (every item and change carries the same time: model world with tick 0); compared with the real collection run under exactly that schedule; non-trivial = at least one write was pending when the subscriptions opened; distinct by the whole case")
 	runCollCases(seededCollCases(), ktie, stie, kmon, drv)
 	var kcs []kcase
 	for i, n := 0, f.N(700, 15000); i < n; i++ {
